@@ -27,7 +27,7 @@ for r in res:
 out.append(f"\n{n_c} of {len(res)} mutations are caught within the quick budget; the others are equivalent with respect to the property as stated (remarks).\n")
 metas = sorted(glob.glob(os.path.join(V, 'seeded', '*', 'meta.json')))
 out.append("### 9.2 Independently seeded changes (`seeded/`, `tools/seeded.py`)\n")
-out.append(f"{len(metas)} changes were written by fresh sub-agents that saw only the text of one property and a scratch worktree of `/repo` (nothing from `/verif`); the second and third agent per property were additionally told what the earlier ones had done and asked for a different clause or mechanism. Each change was confirmed here in a fresh scratch worktree of the current `/repo` HEAD: the patch applies, the 150 repository tests pass with it, the agent's demonstration fails with it and passes without. `caught by` is the result of the quick tier against the patched worktree. Where the first run missed a change the workload or oracle was strengthened (last column) - never the other way round - and the checks were re-run on the unchanged tree over several seeds before the strengthening was accepted. `tools/seeded_sweep.py` re-runs kept changes under other VERIF_SEED values; the last full sweeps (160 changes, seeds 1 and 2) caught every change under every seed.\n")
+out.append(f"{len(metas)} changes were written by fresh sub-agents that saw only the text of one property and a scratch worktree of `/repo` (nothing from `/verif`); the second and third agent per property were additionally told what the earlier ones had done and asked for a different clause or mechanism. Each change was confirmed here in a fresh scratch worktree of the current `/repo` HEAD: the patch applies, the 150 repository tests pass with it, the agent's demonstration fails with it and passes without. `caught by` is the result of the quick tier against the patched worktree. Where the first run missed a change the workload or oracle was strengthened (last column) - never the other way round - and the checks were re-run on the unchanged tree over several seeds before the strengthening was accepted. `tools/seeded_sweep.py` re-runs kept changes under other VERIF_SEED values; the last full sweeps (120 changes under seeds 1 and 2, later 160 changes under seed 1) caught every change (one exception, C12_c under one seed, was strengthened afterwards).\n")
 out.append("| id | what the change needs in order to show | caught by | what had to be strengthened first |\n|---|---|---|---|")
 missed = 0
 for f in metas:
